@@ -2,7 +2,7 @@
 
 from vf import symx
 from vf.framework import Check
-from checks import classify_fn
+from checks import classify_fn, classify_db
 
 
 class C03(Check):
@@ -22,8 +22,20 @@ class C03(Check):
                                {'N': n, 'props': ('C03',), 'seed': self.seed, 'replay_every': 5},
                                name='match_storms[N=%d]' % n)
             self.absorb(exp, need_paths=2)
-        for f in self.failures:
-            f['N'] = int(f['harness'].split('=')[1].rstrip(']'))
+        self.run_conformance(patterns=3)
+        G = 4 if self.tier == 'quick' else 5
+        self.bounds['DB level'] = {'grid steps': G, 'validity patterns': 'all', 'time step': '1800 s'}
+        self.unit('spowtd.classify', *classify_db.UNITS)
+        self.unit('spowtd.schema.sql', 'view storm_total_rain_depth')
+        self.stubs.append('sqlite3 -> vf.symsql')
+        self.assumptions.append('DB level starts from an arbitrary state satisfying Inv_load')
+        exp = symx.explore(classify_db.harness, {'G': G, 'step_s': 1800, 'props': ('C03',), 'seed': self.seed, 'replay_every': 13},
+                           name='classify_intervals[G=%d]' % G)
+        self.absorb(exp, need_paths=2)
 
     def replay(self, failure):
-        return classify_fn.replay_failure(failure['N'], failure)
+        if failure['harness'].startswith('classify_intervals'):
+            G = int(failure['harness'].split('=')[1].rstrip(']'))
+            return classify_db.replay_failure({'G': G, 'step_s': 1800}, failure)
+        N = int(failure['harness'].split('=')[1].rstrip(']'))
+        return classify_fn.replay_failure(N, failure)
